@@ -60,7 +60,8 @@ CLAIMS = {
         text="Decides structural necessary conditions of job tracking: no order-dependent search or order-breaking mutation of "
              "Job.pids, the four child-event kinds parked in matching maps by both reapers and all drained, event maps touched "
              "only with SIGCHLD blocked, smallest-free-id allocation, the all-stopped predicate (every verdict site), gid lookups not bounded by "
-             "jobs.len(), event maps changed one pid at a time. Interleaving semantics are not decided.",
+             "jobs.len(), event maps changed one pid at a time, a member's stop / continue mark changed only by insert(pid) / "
+             "remove(pid). Interleaving semantics are not decided.",
         note="trusted: MIR, nix WaitStatus; model-level interleavings out of reach of path rules",
         ref="4/C06"),
     "C07": dict(
@@ -100,7 +101,7 @@ CLAIMS = {
                   "constant-argument rule, pass-order rule, edit-list rule, regex shape comparison",
         text="Decides that captured output cannot reach a replacement template unescaped or be rescanned for $(, the "
              "substitution loop cannot stutter and its splice pattern is as wide as its gate, capture=true at the three sites, "
-             "trailing-newline-only trimming, read to EOF, one expansion per line, no interpreting pass after substitution, "
+             "trailing-newline-only trimming of an output that is read whatever the command's status, read to EOF, one expansion per line, no interpreting pass after substitution, "
              "positions stay valid until used, bracketed counters are restored on every path, the extracting pattern (evaluated as "
              "data) takes one substitution at a time, the captured stderr is passed on, a function's output is concatenated as "
              "written, assignment patterns accept multi-line values, and which commands run inside the shell process when "
@@ -140,7 +141,7 @@ CLAIMS = {
         technique="static analysis: backward value-flow table, constant and region rules, regex gate-vs-rewriter evaluation, "
                   "edit-list, accumulator and inc/dec pairing rules",
         text="Decides status plumbing for functions/source/scripts/exit, positional base index, exit_on_error test after every "
-             "command, source/functions run in the shell process, the positional gate covers its rewriter, results written to the "
+             "command (no path to the next line once the flag is set and the status is non-zero), a function's status copied - not computed - from its last command, source/functions run in the shell process, the positional gate covers its rewriter, results written to the "
              "slot read, result lists only grow, depth counters restored on every path, redefinition overwrites, and source / function calls always run what was named.",
         note="trusted: MIR",
         ref="4/C15"),
